@@ -3,10 +3,13 @@ import PebblesVerif.Driver.SchemaJson
 import PebblesVerif.Driver.ISelJson
 import PebblesVerif.Model.Introspect
 import PebblesVerif.Spec.IntrospectSpec
+import PebblesVerif.Model.Remote
+import PebblesVerif.Driver.SchemaOut
 /-! Driver ops of the introspection resolver (C16) and of the spec answer (C15, C16):
 `c16.resolve` — `Model.Introspect.resolve` with the map orders the harness observed or chose;
 `c16.spec`    — `Spec.select vars sel (Spec.introspect S)`;
-`c16.full`    — `Spec.introspect S`. -/
+`c16.full`    — `Spec.introspect S`;
+`c15.rebuild` — `Model.Remote.rebuildResp` on the downstream answer. -/
 namespace PebblesVerif.Driver.DIntrospect
 open Lean PebblesVerif.Driver PebblesVerif
 
@@ -32,6 +35,11 @@ def handle : Handler
   | "c16.full", j =>
     let S := parseSchema ((getObj? j "schema").getD .null)
     some (obj [("result", ofJ (Spec.introspect S))])
+  | "c15.rebuild", j =>
+    let resp := (getArr j "resp").map toJ
+    match Model.Remote.rebuildResp resp with
+    | .ok r => some (obj [("outcome", "ok"), ("schema", schemaOut r.schema), ("unknownKind", strArr r.unknownKind)])
+    | .error e => some (obj [("outcome", if e == .panic then "panic" else "error"), ("err", e.tag)])
   | _, _ => none
 
 end PebblesVerif.Driver.DIntrospect
